@@ -145,6 +145,19 @@ CLAIMED = {
         "Parameters large enough for float32 softmax to underflow are outside the model; the repaired None-form defect "
         "is listed as fixed.",
         "DESIGN.md section 3 (C15)"),
+    "C16": (
+        "TLA+ transcription of the hyperparameter rules (Valid) and of the statement's must-reject list, with the full "
+        "cross product of constructor arguments generated by TLC; real construction / projection / evaluation "
+        "outcomes judged by TLC",
+        "ConfigSpace.tla transcribes verify_hyperparameters of Lattice, PWLCalibration, Linear, CategoricalCalibration "
+        "and KroneckerFactoredLattice; TLC generates the cross product over small domains (55 398 configurations, valid "
+        "and invalid) and checks MustReject => ~Valid. Each configuration (quick: all non-lattice ones and 1500 "
+        "sampled lattice ones; thorough: all) is constructed, built, projected on two finite weight tensors and "
+        "evaluated, in its numeric and its synonymous spelling ('increasing'/1, 'peak'/-1, 'positive'/1, single tuple / "
+        "one-element list); TLC validates the outcome: rejected with ValueError or total and finite, must-reject "
+        "combinations rejected, synonyms identical; Valid differing from acceptance is drift.",
+        "RTL, CDF and premade configs are not in the enumerated cross product; four repaired defects are listed as fixed.",
+        "DESIGN.md section 3 (C16)"),
     "C17": (
         "TLA+ state machines of the RTL arrangement, random ensemble, all-pairs cover and Crystals allocation/placement "
         "with every random choice nondeterministic, model-checked by TLC; real structures and hook-recorded steps "
